@@ -638,7 +638,7 @@ fn value_scripts_c<const C: usize>(ctx: &Ctx, rep: &mut Report, cfg: RibCfg, lat
         fr.push(i as f32 / 24.0);
     }
     let mut levels: Vec<f32> = fr.iter().map(|f| f * b).collect();
-    levels.extend([f32::from_bits(1), f32::MIN_POSITIVE, below]);
+    levels.extend([f32::from_bits(1), f32::MIN_POSITIVE, below, -0.0]);
     for x in levels {
         let mut v = vec![x; l + 2];
         v.extend([1.0, x, x]);
@@ -813,6 +813,65 @@ fn many_presses_c<const C: usize>(_ctx: &Ctx, rep: &mut Report, cfg: RibCfg, cyc
     rep.evaluations += cycles as u64;
     rep.transitions += (cycles * (2 * l + 10)) as u64;
     rep.subruns.push(json!({"engine": "E2-sweep", "what": "many press / tap cycles in a row", "fs": cfg.fs, "capacity": C, "cycles": cycles, "values_checked": with_value}));
+}
+
+/// more short touches in a row than a 16-bit counter holds (none of them long enough to be a press), edges read now and
+/// then, followed by a real press that must be reported after exactly the usual number of samples
+fn many_taps_c<const C: usize>(_ctx: &Ctx, rep: &mut Report, cfg: RibCfg, taps: usize, props: &[&'static str]) {
+    let mut m = match RibM::<C>::new(cfg, vec![], false, false, u32::MAX) {
+        Ok(m) => m,
+        Err(_) => return,
+    };
+    m.edge_polls = true;
+    let l = m.m.l;
+    let b = cfg.boundary();
+    let mut done = 0usize;
+    let step = |m: &mut RibM<C>, op: ROp, done: usize, rep: &mut Report| -> bool {
+        let mut out = StepOut::new();
+        let r = std::panic::catch_unwind(std::panic::AssertUnwindSafe(|| m.apply(&op, &mut out)));
+        let script = || vec![format!("# {} taps of 1..{} in-range samples, each ended by one out-of-range sample, then a press", done, l - 1), format!("poll:{:?}", 0.3 * b), "poll:1.0".to_string()];
+        if let Err(e) = r {
+            for p in props {
+                rep.violation(Violation { prop: p, class: "panic".into(), detail: format!("the real code panicked after {} taps: {}", done, panic_msg(&e)), machine: "ribbon", config: m.config(), ops: script() });
+            }
+            return false;
+        }
+        for f in out.flags {
+            if props.contains(&f.prop) {
+                rep.violation(Violation { prop: f.prop, class: format!("{}-after-many-taps", f.class), detail: format!("{} (after {} taps)", f.detail, done), machine: "ribbon", config: m.config(), ops: script() });
+                return false;
+            }
+        }
+        true
+    };
+    'taps: for n in 0..taps {
+        let len = 1 + n % (l - 1).max(1);
+        for i in 0..len {
+            if !step(&mut m, ROp::Poll(b * (0.1 + 0.8 * ((n + i) % 7) as f32 / 7.0)), done, rep) {
+                break 'taps;
+            }
+        }
+        if !step(&mut m, ROp::Poll(1.0), done, rep) {
+            break 'taps;
+        }
+        if n % 1009 == 0 && !(step(&mut m, ROp::JustPressed, done, rep) && step(&mut m, ROp::JustReleased, done, rep)) {
+            break 'taps;
+        }
+        done = n + 1;
+        m.hist.clear();
+    }
+    if done == taps {
+        for _ in 0..(l + 1) {
+            if !step(&mut m, ROp::Poll(0.4 * b), done, rep) {
+                break;
+            }
+        }
+        let _ = step(&mut m, ROp::JustPressed, done, rep) && step(&mut m, ROp::Poll(1.0), done, rep) && step(&mut m, ROp::JustReleased, done, rep);
+    }
+    rep.count("tap_cycles", taps as u64);
+    rep.evaluations += taps as u64;
+    rep.transitions += (taps * (l / 2 + 2)) as u64;
+    rep.subruns.push(json!({"engine": "E2-sweep", "what": "many short touches in a row, then a press", "fs": cfg.fs, "capacity": C, "taps": taps}));
 }
 
 /// one press held for more than 2^16 polls (counters of 8 / 16 bits inside a controller wrap in that time), samples
@@ -1080,7 +1139,7 @@ pub fn c15(ctx: &Ctx) -> Report {
             let b = cfg.boundary();
             // the single in-range level of the larger capacities differs per resistor triple: mid-range, a subnormal, near the boundary
             let solo = [0.4 * b, 1.0e-40, 0.98 * b][ti];
-            let levels: Vec<f32> = if fs == 100 { vec![0.4 * b, 1.0, b * 0.999, b * 1.001, 0.0, 1.0e-40] } else if fs == 334 { vec![0.4 * b, 1.0, b * 1.001, b * 0.999] } else if fs == 500 { vec![0.4 * b, 1.0, f32::from_bits(1)] } else { vec![solo, 1.0] };
+            let levels: Vec<f32> = if fs == 100 { vec![0.4 * b, 1.0, b * 0.999, b * 1.001, 0.0, 1.0e-40, -0.0] } else if fs == 334 { vec![0.4 * b, 1.0, b * 1.001, b * 0.999] } else if fs == 500 { vec![0.4 * b, 1.0, f32::from_bits(1)] } else { vec![solo, 1.0] };
             let mp = if thorough && fs <= 2000 { 3 } else { 2 };
             with_capacity!(fs, explore_c, ctx, &mut rep, cfg, levels, false, false, mp, None, p, &format!("press detection at {} Hz, resistors {:?}", fs, t));
         }
@@ -1096,6 +1155,10 @@ pub fn c15(ctx: &Ctx) -> Report {
         for (fs, cycles) in [(100u32, 70_000usize), (1000, 300), (10000, 260)] {
             let cfg = RibCfg { fs, softpot: 20e3, dropper: 820.0, pullup: 1e6 };
             with_capacity!(fs, many_presses_c, ctx, &mut rep, cfg, cycles, false, p);
+        }
+        for (fs, taps) in [(334u32, 70_000usize), (1000, 66_000)] {
+            let cfg = RibCfg { fs, softpot: 20e3, dropper: 820.0, pullup: 1e6 };
+            with_capacity!(fs, many_taps_c, ctx, &mut rep, cfg, taps, p);
         }
         for fs in if thorough { vec![10000u32, 22050, 48000, 96000, 192000] } else { vec![10000u32, 48000, 96000, 192000] } {
             let cfg = RibCfg { fs, softpot: 20e3, dropper: 820.0, pullup: 1e6 };
